@@ -31,8 +31,15 @@ func ZZ_C14_counters() {
 			termIdx = i
 		}
 	}
-	ds := zzDaemonset(map[string]string{})
+	// the rollout may be frozen: nothing is created or deleted then, but the counters still describe what is
+	// there now, not what an earlier sync stored (nine of each, from a larger cluster)
+	ann := map[string]string{}
 	rs := zzReplicaSet()
+	if nondet.Bool("rolloutFrozen") {
+		ann[datadoghqv1alpha1.ExtendedDaemonSetRolloutFrozenAnnotationKey] = "true"
+		rs.Status.Desired, rs.Status.Current, rs.Status.Ready, rs.Status.Available = 9, 9, 9, 9
+	}
+	ds := zzDaemonset(ann)
 	params, items := zzParams(ds, rs, cats)
 	for i, c := range cats {
 		if c == upToDateTerminating {
